@@ -118,6 +118,12 @@ static const char *const T_C03[] = {
 	"slow; S0 S1>0 S2>0 | a1 B1 | a2 a2",
 	"slow; S0 S1>0 S2>0 | a1 w1 | a2",
 	"slow; S0 S1>0 S2>0 | s1 | s1 | s2",
+	// async_and_wait on a free upper level while the lower level is held by an asynchronous drainer; afterwards the upper level must be usable
+	"S0 S1>0 | a0 w1 a1",
+	"S0 S1>0 | a0 w1 s1",
+	"slow; S0 S1>0 | a0 w1 a1 s1",
+	"slow; S0 S1>0 S2>1 | a0 w2 a2 s1",
+	"slow; S0 C1>0 | a0 w1 a1 B1",
 	0
 };
 QP_HARNESS(h_q03, "q03", "C03", T_C03, 0);
